@@ -138,7 +138,7 @@ def shard(desc):
             sh.sample({"date": iso, "population": popgen.brief(pop.df)}, limit=2)
             return out
 
-        core.explore(popgen.populations(date, mode="branch", max_households=desc["max_hh"]),
+        core.explore(popgen.populations(date, mode="branch", max_households=desc["max_hh"], max_children=10),
                      oracle, n=desc["n"], seed=dates.sub_seed(desc["seed"], PROP, iso),
                      shard=sh, known=known, shrink=False)
         for k, v in other.items():
